@@ -49,6 +49,7 @@ func (c *c19) Cases(tier string, seed int64) []core.Case {
 	nsets := map[string]int{"quick": 1, "thorough": 10}[tier]
 	parts := 8
 	cs = append(cs, core.MkCase("fixed-absurd-slice-size", c19Params{Seed: 5, Fmt: "par2", Family: "fixed-absurd-slice-size", Damage: "intact", Parts: 1}))
+	cs = append(cs, core.MkCase("fixed-illegal-slice-sizes", c19Params{Seed: 8, Fmt: "par2", Family: "fixed-illegal-slice-sizes", Damage: "intact", Parts: 1}))
 	cs = append(cs, core.MkCase("fixed-par1-saved-counts", c19Params{Seed: 7, Fmt: "par1", Family: "fixed-par1-saved-counts", Damage: "intact", Parts: 1}))
 	cs = append(cs, core.MkCase("fixed-all-files-empty", c19Params{Seed: 6, Fmt: "par2", Family: "fixed-all-files-empty", Damage: "intact", Parts: 1}))
 	for s := 0; s < nsets; s++ {
@@ -705,6 +706,44 @@ func (c *c19) runFixedAbsurdSlice(r *core.R) {
 	r.Sample(map[string]interface{}{"family": "fixed-absurd-slice-size", "sizes": []string{"2^62", "2^63-4", "2^50"}})
 }
 
+// runFixedIllegalSlices: whole sets written by the reference writer for slice
+// sizes the format does not allow (1, 2, 3, 5, 6, 10, 18): every checksum
+// list, length and ID is consistent WITH that size, so nothing but the rule
+// "a positive multiple of 4" can object. Data intact, one file missing, one
+// file altered; index alone.
+func (c *c19) runFixedIllegalSlices(r *core.R) {
+	for _, size := range []int{1, 2, 3, 5, 6, 10, 18} {
+		for _, state := range []string{"intact", "one-missing", "one-altered"} {
+			root, err := os.MkdirTemp("", "c19ill-")
+			if err != nil {
+				r.Inconclusive("tempdir: %v", err)
+				return
+			}
+			dir := filepath.Join(root, "set")
+			os.MkdirAll(dir, 0755)
+			in := []par2rw.InFile{{Name: "one.bin", Data: []byte("the first of two small files")}, {Name: "two.bin", Data: []byte("second!")}}
+			for _, f := range in {
+				os.WriteFile(filepath.Join(dir, f.Name), f.Data, 0644)
+			}
+			rs := par2rw.BuildSet(size, in)
+			pk := append([]par2rw.Packet{rs.CreatorPacket("ref")}, rs.Critical()...)
+			idx := filepath.Join(dir, "arch.par2")
+			os.WriteFile(idx, par2rw.Serialize(pk), 0644)
+			switch state {
+			case "one-missing":
+				os.Remove(filepath.Join(dir, "two.bin"))
+			case "one-altered":
+				os.WriteFile(filepath.Join(dir, "one.bin"), []byte("the first of two small filez"), 0644)
+			}
+			j := &c19Judge{fmt: "par2", dir: dir, idx: idx, root: root}
+			j.run(r, fmt.Sprintf("set written consistently for the illegal slice size %d [%s, no recovery file present]", size, state))
+			r.Key("fixed-illegal-slice|%d|%s", size, state)
+			os.RemoveAll(root)
+		}
+	}
+	r.Sample(map[string]interface{}{"family": "fixed-illegal-slice-sizes", "sizes": "1,2,3,5,6,10,18"})
+}
+
 // runFixedAllEmpty: a conformant-looking set in which every protected file
 // is empty (length 0, no slice checksums) and a recovery file with one
 // well-formed recovery packet: there is nothing to code over.
@@ -798,6 +837,10 @@ func (c *c19) Run(cs core.Case) core.Result {
 	}
 	if p.Family == "fixed-absurd-slice-size" {
 		c.runFixedAbsurdSlice(r)
+		return r.Done()
+	}
+	if p.Family == "fixed-illegal-slice-sizes" {
+		c.runFixedIllegalSlices(r)
 		return r.Done()
 	}
 	h, err := newHostileEnv(p.Fmt, p.Seed)
